@@ -359,7 +359,7 @@ theorem parseDeclarations_class_head_bases (env : Env) (F D : Nat) (ck : CTok) (
     simp only [hv1, classHdrB, defaultAccess] at hpush hi4' ⊢
     simp only [interp, ↓reduceIte, (by decide : ("struct" = "class") = False), (by decide : ("union" = "class") = False)] at hpush
     simp only [↓reduceIte, List.nil_append, (by decide : ("struct" = "class") = False), (by decide : ("union" = "class") = False)] at hi4'
-    simp only [loopN, strTruthy, PQName.classkey, bind, interp_bind, hi2, Option.isSome_none, ↓reduceIte, Bool.false_eq_true, Option.getD_some,
+    simp only [loopN, classSpecBody, strTruthy, PQName.classkey, bind, interp_bind, hi2, Option.isSome_none, ↓reduceIte, Bool.false_eq_true, Option.getD_some,
       P.tokenIfInSet, hi3, validate_empty, Bool.not_false, hc3, hc5, hi4', hi5, List.nil_append,
       (by decide : (":" = "final") = False), (by decide : (":" = "explicit") = False),
       (by decide : "class".isEmpty = false), (by decide : "struct".isEmpty = false), (by decide : "union".isEmpty = false),
